@@ -192,7 +192,7 @@ impl Property for C11 {
     }
     fn budget(&self, tier: Tier) -> Budget {
         match tier {
-            Tier::Quick => Budget { release: 60_000, dbg: 20_000, workers: 8 },
+            Tier::Quick => Budget { release: 240_000, dbg: 80_000, workers: 8 },
             Tier::Thorough => Budget { release: 1_600_000, dbg: 400_000, workers: 16 },
         }
     }
